@@ -262,7 +262,9 @@ class Element:
         :returns: a new class
 
         """
-        simplified = dict(iterable, **properties)
+        # *iterable* is the tuple of positional arguments: at most one, an
+        # iterable of pairs (or a mapping)
+        simplified = dict(*iterable, **properties)
         cls.properties.update(simplified)
         return cls
 
